@@ -177,9 +177,10 @@ class Tracker:
         # would hide a real momentum leak of 1e-12 per step)
         n_ops = n * (stages if stages <= 48 else 48.0 * math.sqrt(stages / 48.0))
         if fam == "eos":
-            # EOS: up to 2312 kicks per step; their rounding adds like a random walk (measured: with 2*sqrt(kicks) the
-            # largest ratio over 8 seeds stays below 0.2), and a linear allowance would hide a leak of 1e-12 per step
-            n_ops = n * 2.0 * math.sqrt(stages)
+            # EOS: up to 2312 kicks per step; their rounding adds like a random walk and is small (measured: with
+            # max(1, sqrt(kicks)/4) the largest ratio stays near 0.1); a linear allowance would hide a momentum
+            # leak of 1e-12 per step
+            n_ops = n * max(1.0, math.sqrt(stages) / 4.0)
         msum = float(abs(a[:, inv.M]).sum())
         # --- linear momentum
         Psc = max(float(i0["Psc"]), float(i1["Psc"]), getattr(self, "Psc_path", 0.0))
